@@ -2,7 +2,6 @@ package main
 
 import (
 	"fmt"
-	"sort"
 	"strings"
 	"sync"
 	"time"
@@ -512,7 +511,7 @@ func (e *Env) transientHistories(drv, label string, n int, judge func(c *transie
 		// each must encode the next unused bytes of the stream)
 		wrapped := h%3 == 2
 		if wrapped {
-			src.Wrap = []string{"bufio", "bufio16", "multi", "limited", "iotest-onebyte"}[(h/3)%5]
+			src.Wrap = []string{"bufio", "bufio16", "multi", "limited", "iotest-onebyte", "func"}[(h/3)%6]
 			for i := range src.Steps {
 				src.Steps[i].E, src.Steps[i].Once = "", false
 				if src.Steps[i].N == 0 {
@@ -599,6 +598,9 @@ func (e *Env) transientHistories(drv, label string, n int, judge func(c *transie
 // delivered; "" when the call is fine or not covered.
 func (c *transientCall) workingSourceVerdict() string {
 	rr := c.res
+	if rr.Panic != "" && !c.failedNow && !c.disturbed && !strings.Contains(rr.Panic, "verif: the scripted source panicked") {
+		return fmt.Sprintf("NewMnemonic(%d) panicked although the source delivered without any error during the call: %s", c.ops[c.i].N, oneLine(rr.Panic, 200))
+	}
 	if rr.Panic != "" || c.failedNow || c.disturbed {
 		return ""
 	}
@@ -618,6 +620,7 @@ func (c *transientCall) workingSourceVerdict() string {
 // c06Concurrent: see checkC06.
 func (e *Env) c06Concurrent(drv string, procs int) (calls int) {
 	var mu sync.Mutex
+
 	kinds := []string{"custom", "eof", "ueof", "temporary", "eintr", "deadline"}
 	parallel(procs, max(1, e.Workers/4), func(pi int) {
 		r := rng.New(e.Seed, "C06-conc-"+itoa(pi))
@@ -668,70 +671,66 @@ func (e *Env) c06Concurrent(drv string, procs int) (calls int) {
 		type ev struct {
 			data []byte
 			err  string
+			g    int
 		}
-		events := make([][]ev, G)
+		var events []ev
 		off := 0
 		for _, re := range cr.Trailer.Reads {
 			w, ok := gidOf[re.G]
 			if !ok {
 				return // read by a goroutine that is not a worker: not judged here (C07, C12)
 			}
-			events[w] = append(events[w], ev{data: data[off : off+re.N], err: re.E})
+			events = append(events, ev{data: data[off : off+re.N], err: re.E, g: w})
 			off += re.N
 		}
-		pos := make([]int, G)
-		byWorker := make([][]*plan.Res, G)
 		for i := range cr.Results {
 			rr := &cr.Results[i]
-			if rr.G >= 0 && rr.G < G {
-				byWorker[rr.G] = append(byWorker[rr.G], rr)
+			if rr.G < 0 || rr.G >= G || rr.Panic != "" {
+				continue
 			}
-		}
-		for w := 0; w < G; w++ {
-			sort.Slice(byWorker[w], func(a, b int) bool { return byWorker[w][a].I < byWorker[w][b].I })
-			for _, rr := range byWorker[w] {
-				op := &c.Workers[w][rr.I]
-				need := int(op.N) + int(op.N)/3
-				// this call's reads: up to the read that completes the delivery or reports an error
-				var got []byte
-				failed, alongside := false, false
-				for pos[w] < len(events[w]) {
-					e1 := events[w][pos[w]]
-					pos[w]++
-					got = append(got, e1.data...)
-					if e1.err != "" {
-						failed = len(got) < need
-						alongside = len(got) >= need
-						break
-					}
-					if len(got) >= need {
-						break
-					}
-				}
-				if rr.Panic != "" {
+			op := &c.Workers[rr.G][rr.I]
+			need := int(op.N) + int(op.N)/3
+			// this call's reads: the events of its goroutine between the two positions of the
+			// shared log the child noted before and after the call
+			lo, hi := -1, -1
+			for _, inf := range rr.Info {
+				fmt.Sscanf(inf, "sharedlog=%d:%d", &lo, &hi)
+			}
+			if lo < 0 || hi < lo || hi > len(events) {
+				continue
+			}
+			var got []byte
+			errSeen := false
+			for _, e1 := range events[lo:hi] {
+				if e1.g != rr.G {
 					continue
 				}
-				out := string(unhex(rr.Out))
-				switch {
-				case failed:
-					if rr.Err == nil || out != "" {
-						viol(fmt.Sprintf("worker %d call %d: the source failed after delivering %d of %d bytes to this goroutine, yet NewMnemonic(%d, %s) returned err=%s and %s", w, rr.I, len(got), need, op.N, ref.Names[op.L], errText(rr.Err), preview(out)), rr)
-						return
-					}
-				case len(got) < need:
-					return // the log ended (data exhausted): nothing more to judge in this process
-				case alongside && rr.Err != nil && out == "":
-					// error alongside the completing read: either outcome is fine
-				default:
-					if want := e.Model.Enc(got[:need], int(op.L)); rr.Err != nil || out != want {
-						viol(fmt.Sprintf("worker %d call %d: NewMnemonic(%d, %s) returned err=%s and %s; the source delivered %x to this goroutine during the call, whose encoding is %s", w, rr.I, op.N, ref.Names[op.L], errText(rr.Err), preview(out), got[:need], preview(want)), rr)
-						return
-					}
-				}
-				mu.Lock()
-				calls++
-				mu.Unlock()
+				got = append(got, e1.data...)
+				errSeen = errSeen || e1.err != ""
 			}
+			out := string(unhex(rr.Out))
+			switch {
+			case rr.Err == nil && out != "":
+				// a mnemonic: it must encode the first 4n/3 bytes the source delivered to this
+				// goroutine during the call (a consumer that goes on after a transient error and
+				// collects all the bytes still returns such a mnemonic)
+				if len(got) < need || e.Model.Enc(got[:need], int(op.L)) != out {
+					viol(fmt.Sprintf("worker %d call %d: NewMnemonic(%d, %s) returned %s; during the call the source delivered %d bytes to this goroutine (%x), %s", rr.G, rr.I, op.N, ref.Names[op.L], preview(out), len(got), got[:min(len(got), need)], map[bool]string{true: "whose encoding is another sentence", false: "fewer than the " + itoa(need) + " needed"}[len(got) >= need]), rr)
+					return
+				}
+			case rr.Err == nil:
+				viol(fmt.Sprintf("worker %d call %d: NewMnemonic(%d, %s) returned the empty string and a nil error", rr.G, rr.I, op.N, ref.Names[op.L]), rr)
+				return
+			case out != "":
+				viol(fmt.Sprintf("worker %d call %d: NewMnemonic(%d, %s) returned an error (%s) together with %s", rr.G, rr.I, op.N, ref.Names[op.L], errText(rr.Err), preview(out)), rr)
+				return
+			case !errSeen && len(got) >= need:
+				viol(fmt.Sprintf("worker %d call %d: NewMnemonic(%d, %s) failed with %q although the source delivered %d bytes to this goroutine without any error during the call", rr.G, rr.I, op.N, ref.Names[op.L], errText(rr.Err), len(got)), rr)
+				return
+			}
+			mu.Lock()
+			calls++
+			mu.Unlock()
 		}
 	})
 	return calls
